@@ -34,7 +34,7 @@ RULE = ('Exhaustive: op in {add sub mul div fma neg abs copysign fdim mod fmod r
         'nearbyint sqrt cbrt hypot} x every operand tuple of a small IEEE source format (quick: (es,nbits)=(3,6) or (2,5), '
         'thorough: (3,7); all members, +-0, +-inf, NaN; plus non-dyadic rationals) x 23 target contexts (MPFloat p=1,2,3,6; '
         'MPSFloat; MPBFloat; IEEE; EFloat; MPFixed; MPBFixed; Fixed; SMFixed; Exp) x 8 rounding modes, and fp.REAL; fma on the '
-        'cube of the (2,5) source plus cancellation-directed triples (a, b, -round(ab) +- ulp).  Hypothesis: 1..200-bit operands, '
+        'cube of the (2,5) source plus cancellation-directed triples (a, b, -round(ab) +- ulp); remainders also with quotients up to 2^90.  Hypothesis: 1..200-bit operands, '
         'mixed carriers (Float/int/float/Fraction incl. non-dyadic), and operand tuples solved so that the exact result is a '
         'target breakpoint +- tiny.  Non-trivial = the exact result is not a member of the target (must be rounded, overflowed '
         'or rejected), or an operand is a signed zero / infinity / NaN, or the context is REAL (result must be exact); distinct '
@@ -319,9 +319,9 @@ def evaluate(res: Result, op, ctx, m, label, dens, cars, ex=None, extra_classes=
     case = {'op': op, 'ctx': label, 'args': [[c, show(d)] for d, c in zip(dens, cars)]}
     if nt:
         res.nontrivial(nt_key)
-        if res.evaluations % sample_every == 1:
+        if res.evaluations % sample_every == sample_every // 3:
             res.sample(dict(case, exact=str(exr.values[0]), classes=classes), nt=True)
-    elif res.evaluations % sample_every == 2:
+    elif res.evaluations % sample_every == sample_every // 2:
         res.sample(dict(case, exact=str(exr.values[0]), classes=classes))
     # ---- verdict
     got = None
@@ -391,11 +391,7 @@ def fma_triples(tier):
     B = src_values(2, 5)
     A = src_values(3, 6) if not T else src_values(3, 7)
     out = []
-    if T:
-        C = [d for d in src_values(3, 6)]
-        out += [(a, b, c) for a in C for b in C for c in C if (abs(a) <= 4 if isinstance(a, Fraction) else True)]
-    else:
-        out += [(a, b, c) for a in B for b in B for c in B]
+    out += [(a, b, c) for a in B for b in B for c in B]
     seen = set(out)
     fin = [a for a in A if isinstance(a, Fraction)]
     for a in fin:
@@ -421,7 +417,12 @@ def tuples_for(op, si, tier):
     S = source_for(op, si if si is not None else 0, tier)
     if ar == 1:
         return [(a,) for a in (src_values(3, 7) if tier == 'thorough' else src_values(3, 6))]
-    return [(a, b) for a in S for b in S]
+    out = [(a, b) for a in S for b in S]
+    if O.OPS[op].family == 'rem':
+        # quotients far beyond the precision of either operand (the integer quotient must be exact)
+        fin = [a for a in src_values(2, 5) if isinstance(a, Fraction)]
+        out += [(a * k, b) for k in (2049, (1 << 40) + 1, (1 << 90) - 1) for a in fin for b in fin]
+    return out
 
 
 def run_exh(res: Result, op, si, ch, nch, tier):
@@ -647,8 +648,10 @@ def solve(op, v, ulp, r1, r2, r3, nd, neg):
     if op == 'hypot':
         if not vd:
             return None
-        if r1 % 4 == 0:
-            return (s * 3 * v, 4 * v) if r1 & 4 else (Fraction(neg and -5 or 5) * v, 12 * v)    # exact: 5v, 13v
+        if r1 % 2 == 0 and v.numerator % 5 == 0:
+            return (s * 3 * v / 5, -4 * v / 5) if r1 & 4 else (4 * v / 5, s * 3 * v / 5)      # exact: hypot = v
+        if r1 % 2 == 0 and v.numerator % 13 == 0:
+            return (s * 5 * v / 13, 12 * v / 13)
         y = pow2(floor_log2(v) - 20 - r2 % 80)
         return ((s * v, y) if r1 & 8 else (y, s * v))
     if op in ('fmod', 'remainder', 'mod'):
